@@ -1019,6 +1019,26 @@ func registerTime(p *Program) {
 		return tc.Bin(OSub, t, ext)
 	})
 	p.reg("time.Sleep", func(e *Exec, g *G, a []Value) Value { return nil })
+	p.reg("time.Until", func(e *Exec, g *G, a []Value) Value {
+		t := e.input("clock", BV(64))
+		tc := e.tc
+		lo := tc.Const(64, 1<<40)
+		if e.clockLast != nil {
+			lo = e.clockLast
+		}
+		e.assume(tc.And(tc.Cmp(OSLE, lo, t), tc.Cmp(OSLT, t, tc.Const(64, 1<<61))))
+		e.clockLast = t
+		_, ext := timeParts(a[0])
+		return tc.Bin(OSub, ext, t)
+	})
+	// timers (context.WithTimeout, time.AfterFunc): created and stopped, but they do not fire
+	// within an explored run (stated assumption: runs are short compared with the timeouts)
+	p.reg("time.AfterFunc", func(e *Exec, g *G, a []Value) Value {
+		c := e.newCell(e.prog.namedType("time", "Timer"))
+		return PtrV{C: c}
+	})
+	p.reg("(*time.Timer).Stop", func(e *Exec, g *G, a []Value) Value { return e.tc.Bool(true) })
+	p.reg("(*time.Timer).Reset", func(e *Exec, g *G, a []Value) Value { return e.tc.Bool(true) })
 	p.reg("(time.Time).Add", func(e *Exec, g *G, a []Value) Value {
 		wall, ext := timeParts(a[0])
 		d := a[1].(*Term)
